@@ -128,6 +128,9 @@ AgreeFailing(c, L, checkNull) ==
   LET R == c.reads
       bad == { a \in 1..Len(R) : ReadFailing(L, R[a], checkNull) # "ok" } IN
   IF bad # {} THEN <<ReadFailing(L, R[Min(bad)], checkNull), R[Min(bad)].name>>
+  \* a consecutive pair exactly 2.4 A apart: every reading answers it the same way
+  ELSE IF \E ab \in OnSpherePairs(L) : \E x, y \in 1..Len(R) :
+             (ab \in SeqSet(R[x].conn)) # (ab \in SeqSet(R[y].conn)) THEN <<"SameConnectivity", "boundary">>
   ELSE IF ~ChiAgree(R) THEN <<"SameChiMagnitude", "chi">>
   ELSE <<"ok", "">>
 
